@@ -1,5 +1,8 @@
 /- Evaluates regenerated kernels / spec functions on given inputs (differential tests against the Python code). -/
 import MoreExec.Gen.K3
+import MoreExec.Gen.K4
+import MoreExec.Gen.K1
+import MoreExec.Gen.K2
 import MoreExec.Model.BoolOp
 import MoreExec.Model.Zipper
 import MoreExec.Model.MapFut
@@ -133,6 +136,9 @@ def oracleLine (ws : List String) : String :=
   | ["k16.apply", fnO, pos, kw] => K16.run fnO pos kw
   | "k6.run" :: n :: rest => zipRun n rest
   | "k6.step" :: n :: rem :: d :: idx :: rest => zipStep n rem d idx rest
+  | "k4.admission" :: th :: running :: rest =>
+      let r := K4.admission (rest.map nat!) (nat! running) (if th = "None" then none else some (nat! th))
+      s!"[{String.intercalate " " (r.1.map toString)}] [{String.intercalate " " (r.2.1.map toString)}] {r.2.2.1} {r.2.2.2}"
   | "k3.partition" :: now :: rest =>
       let r := K3.partitionJobs (parseJobs rest) (nat! now)
       s!"[{showJobs r.1}] [{showJobs r.2}]"
